@@ -896,14 +896,31 @@ C04.manifest = {
             "Same for the distance-only fast path (C04_model_fast_path_total). Independently, verified checkers "
             "(check_dist, check_result, the shortest-path-DAG enumeration) are proved sound/complete w.r.t. the spec "
             "and evaluated on the model's answer of every generated call. The model is tied to the code by the "
-            "per-call correspondence (outcome, nodes, distances, path sets) and a reference oracle.",
-    "note": "single_source is also proved at the level of node names (C04_model_single_source_names: Ok, and the "
-            "returned map is the name translation of an index-level answer meeting the statement). Not proved, "
-            "validated per generated case: the name-level collection of multi_source / all_pairs beyond "
-            "'one per-source call each' (C08_model_*_per_source), and that successors_vec agrees with the edge store "
-            "(C03's subject; the oracle recomputes distances and all shortest paths from the implementation's "
-            "get_all_edges). The hypotheses of the theorems (well-formed adjacency, non-negative costs, coherent name "
-            "indexes) are evaluated on every generated graph (observation 46). Integer weights (exact in binary64). "
+            "per-call correspondence (outcome, nodes, distances, path sets) and a reference oracle. "
+            "END TO END (Proofs/DijkstraWF.v): the structural hypotheses are theorems for every graph state satisfying "
+            "the coherence invariant WF, i.e. every state reachable by any history of add_node/add_edge calls or "
+            "returned by new_from_nodes_and_edges - well-formed adjacency and coherent name indexes follow from WF "
+            "(C04_WF_gives_search_hypotheses), the traversal graph the search reads is exactly the arc relation of the "
+            "EDGE STORE (i -> j iff an edge is stored between the two names, either orientation when undirected; cost = "
+            "the minimum stored weight of the pair, 1 in hop-count mode: C04_traversal_graph_is_edge_store, "
+            "C04_arc_cost_is_min_weight), non-negative costs follow from non-negative stored weights - so dijkstra, the "
+            "per-source function and single_source on node names return Ok and meet the whole per-call statement "
+            "w.r.t. walks over the edge store (C04_reachable_dijkstra_total, C04_reachable_per_source, "
+            "C04_reachable_single_source, C04_history_single_source, C04_constructed_dijkstra_total); read purely on "
+            "node names: every name in single_source's map is a node with its exact shortest distance and the name "
+            "form of shortest paths (one if first_only, all of them for positive weights), and every node within the "
+            "cutoff / the target is in the map (C04_reachable_single_source_answer).",
+    "note": "Hypotheses left in the end-to-end theorems: the property's own premises (non-negative stored weights "
+            "in weighted mode, existing source/target names, cutoff >= 0) and ONE size bound, small_adj = fewer than "
+            "2^31-1 adjacency entries (the i32 counter `count` of dijkstra.rs panics on overflow in a debug build); it "
+            "holds for every graph of at most 46340 nodes (C04_small_adj_of_nodes). The per-graph flags wf_adj_b, "
+            "names_wf_b, nonneg_b (observation 46 of Run/RunDijkstra.v) are kept - they still tie the model's state to "
+            "the code's - but what they validate per case is now proved for every reachable graph: "
+            "wf_adj (mod. the size bound), names_wf, nonneg (from the stored weights), and the agreement of "
+            "successors_vec with the edge store. The name-level collection of multi_source / all_pairs is proved in "
+            "C08_reachable_multi_source / C08_reachable_all_pairs. Non-vacuity: C04_reachable_hypotheses_nonvacuous (a "
+            "graph built by the transcribed constructor: reachable, WF, small, non-negative weights, all entry points "
+            "Ok). Integer weights (exact in binary64); a NaN weight is no arc. "
             "Trusted: Coq kernel + vm_compute, harness/printers/diff. Axioms: none.",
     "technique": "Coq proof of the transcribed algorithm (loop invariants) + verified checkers + differential "
                  "correspondence + reference oracle",
@@ -932,12 +949,22 @@ C08.manifest = {
             "get_all_shortest_paths_involving keeps exactly the all-pairs entries with a path having x strictly inside "
             "(C08_model_involving_filter). Spec level: options_restrict_never_change between any two answers meeting "
             "the per-call statement, cutoff_exact, target_reported, uniqueness of the distance, triangle inequality, "
-            "symmetry on a symmetric adjacency, optimal substructure. The metamorphic relations are also checked on "
+            "symmetry on a symmetric adjacency, optimal substructure. End to end (Proofs/DijkstraWF.v): on every "
+            "reachable graph the three entry points return Ok and agree on node names (C08_reachable_multi_source, "
+            "C08_reachable_all_pairs, C08_reachable_involving). The metamorphic relations are also checked on "
             "the implementation's own answers by the oracle.",
-    "note": "Validated per generated case, not proved: agreement of the three entry points at the level of names "
-            "(all_pairs / multi_source / single_source call the same per-source function in the model; their outputs "
-            "are compared per call with the implementation and with each other by the oracle); symmetry of the "
-            "adjacency of an undirected graph (C03's subject). Axioms: none.",
+    "note": "The agreement of the three entry points at the level of node names, formerly validated per generated "
+            "case only, is now proved for every graph state satisfying the invariant WF (every reachable graph), "
+            "non-negative stored weights (or hop count), existing names, cutoff >= 0 and fewer than 2^31-1 adjacency "
+            "entries (small_adj; true up to 46340 nodes): multi_source returns Ok and maps exactly the listed sources, "
+            "each to THE answer of single_source from it (C08_reachable_multi_source, C08_history_multi_source); "
+            "all_pairs returns Ok and maps exactly the node names, each to the answer of single_source from it "
+            "(C08_reachable_all_pairs, C08_constructed_all_pairs; weighted mode on a store with an unweighted edge: "
+            "Err EdgeWeightNotSpecified, C08_all_pairs_unweighted_store); get_all_shortest_paths_involving returns "
+            "Ok with exactly the all-pairs entries having x strictly inside a path (C08_reachable_involving); "
+            "single_source itself is characterised over the EDGE STORE by C04_reachable_single_source, and the "
+            "adjacency of an undirected graph is symmetric (C04_arcs_symmetric_when_undirected). The per-call "
+            "comparisons with the implementation and the metamorphic oracle are kept. Axioms: none.",
     "technique": "Coq proof of the transcribed algorithm + spec-level theorems + differential correspondence + "
                  "metamorphic oracle",
 }
